@@ -109,6 +109,25 @@ fn handshake_decoder_is_total_and_accepts_only_signed_messages() {
         let m: Vec<u8> = (0..n).map(|_| r.byte()).collect();
         report("random bytes", &m, feed(&m, &trusted), false, &mut failing);
     }
+    // (d) well-formed messages whose salted key hash selects NO trusted key: genuine messages of an untrusted key pair, and messages
+    //     carrying a signature that verifies under degenerate public keys (the all-zero key is a point of small order: R = 1, S = 0
+    //     verifies for about one message in four) - a decoder that falls through to "some" key instead of rejecting accepts these
+    {
+        let (mut c, _d, _other_trusted) = pair();
+        let mut out2 = MsgBuffer::new(8);
+        c.send_ping(&mut out2);
+        let foreign = out2.message().to_vec();
+        report("genuine ping signed with an UNTRUSTED key", &foreign, feed(&foreign, &trusted), false, &mut failing);
+        let signed_end = genuine[0].len() - 65;
+        for _ in 0..64 {
+            let mut m = genuine[0][..signed_end].to_vec();
+            for b in m.iter_mut().take(8) { *b = r.byte(); }      // a salt/hash pair that matches no trusted key
+            m.push(64);
+            let mut sig = [0u8; 64]; sig[0] = 1;
+            m.extend_from_slice(&sig);
+            report("well-formed ping with an unmatched key hash and the signature (R = 1, S = 0) that verifies under the all-zero key", &m, feed(&m, &trusted), false, &mut failing);
+        }
+    }
     panic::set_hook(hook);
     assert_eq!(failing, 0);
 }
